@@ -1,6 +1,9 @@
 ------------------------------- MODULE Sb31Gen -------------------------------
 (* GEN form of C05: TLC enumerates (GEN_MODE = tour) or simulates (GEN_MODE = sim) ABSTRACT cases                    *)
-(*   [curve, nkeys, used, isk, ud, pck, rights, enc, nxp, cmds : Seq([t, dl])]                                       *)
+(*   [curve, nkeys, used, isk, ud, pck, rights, enc, nxp, rk : Seq(KeyClasses), ik : KeyClasses, cmds : Seq([t, dl])] *)
+(* rk[i] = value class of the root key at position i of the root-of-trust set, ik = value class of the image signing  *)
+(* key (Sb31Format!KeyClasses: full width / leading zero byte in X / in Y / in both); the harness takes a key of that  *)
+(* class from its pool.                                                                                              *)
 (* which the harness concretises (addresses, data bytes, timestamp ... from VERIF_SEED), builds through the real     *)
 (* classes and exports.  The tours are computed with the format operators of the R-spec (Size): data lengths are     *)
 (* chosen so that the command stream ends at every 16-byte offset of the 256-byte chunk, in block 1 .. MaxBlocks,    *)
@@ -13,8 +16,11 @@ MaxBlocks == IF Full THEN 5 ELSE 3
 MaxCmds == atoi(IOEnv.GEN_MAXCMDS)
 
 Types == 1..14
+AllFull(n) == [i \in 1..n |-> "full"] \o <<>>
 Cfg(cv, nk, us, ik, ud, pck, rt, en, nx) ==
-  [curve |-> cv, nkeys |-> nk, used |-> us, isk |-> ik, ud |-> ud, pck |-> pck, rights |-> rt, enc |-> en, nxp |-> nx, cmds |-> <<>>]
+  [curve |-> cv, nkeys |-> nk, used |-> us, isk |-> ik, ud |-> ud, pck |-> pck, rights |-> rt, enc |-> en, nxp |-> nx,
+   rk |-> AllFull(nk), ik |-> "full", cmds |-> <<>>]
+Keyed(cfg, rk, ik) == [cfg EXCEPT !.rk = rk, !.ik = IF cfg.isk THEN ik ELSE "full"]
 With(cfg, cmds) == [cfg EXCEPT !.cmds = cmds]
 AC(t, dl) == [t |-> t, dl |-> dl]
 
@@ -25,6 +31,26 @@ EncModes == {<<FALSE, 128, 0>>} \cup {<<TRUE, p, r>> : p \in {128, 256}, r \in 0
 AllCfgs == {Cfg(cv, rs[1], rs[2], ik[1], ik[2], en[2], en[3], en[1], nx)
             : cv \in {32, 48}, rs \in RootSets, ik \in IskModes, en \in EncModes, nx \in {FALSE, TRUE}}
 TourA == {With(c, <<AC(1, 0), AC(2, 300), AC(14, 0)>>) : c \in IF Full THEN AllCfgs ELSE {x \in AllCfgs : ~x.nxp \/ (x.nkeys = 3 /\ x.rights = 2)}}
+
+\* ---- tour R: the VALUE CLASSES of the keys - every root set x used key, with a key of every short class at every position
+\*      (the used key / another member of the set) and all positions at once, x no ISK / ISK of every class
+\*      (thorough: every vector of classes over the set)
+OneShort(n, p, c) == [i \in 1..n |-> IF i = p THEN c ELSE "full"] \o <<>>
+KeyVecs(n) == IF Full THEN {v \o <<>> : v \in [1..n -> KeyClasses]}
+              ELSE {AllFull(n)} \cup {OneShort(n, p, c) : p \in 1..n, c \in ShortClasses} \cup {[i \in 1..n |-> c] \o <<>> : c \in ShortClasses}
+IskKeys == {<<FALSE, 0, "full">>} \cup {<<TRUE, IF c \in {"full", "lzy"} THEN 4 ELSE 0, c>> : c \in KeyClasses}
+TourR == UNION {{With(Keyed(Cfg(cv, rs[1], rs[2], ik[1], ik[2], IF cv = 32 THEN 128 ELSE 256, rs[2], TRUE, FALSE), rk, ik[3]),
+                      <<AC(1, 0), AC(2, 300), AC(14, 0)>>)
+                 : cv \in {32, 48}, ik \in IskKeys, rk \in KeyVecs(rs[1])} : rs \in RootSets}
+\* lemma of the tour: on every curve a key of every short class is the used root key, is an unused member of the set, is the
+\* only root key, is the image signing key; with and without ISK
+KeyLemma == \A cv \in {32, 48}, c \in ShortClasses, ik \in BOOLEAN :
+              /\ \E x \in TourR : x.curve = cv /\ x.isk = ik /\ x.nkeys > 1 /\ x.rk[x.used + 1] = c
+              /\ \E x \in TourR : x.curve = cv /\ x.isk = ik /\ x.nkeys > 1 /\ x.rk[x.used + 1] = "full" /\ \E i \in 1..x.nkeys : x.rk[i] = c
+              /\ \E x \in TourR : x.curve = cv /\ x.isk = ik /\ x.nkeys = 1 /\ x.rk[1] = c
+              /\ \E x \in TourR : x.curve = cv /\ x.isk /\ x.ik = c /\ x.rk = AllFull(x.nkeys)
+              /\ \A n \in 1..4, p \in 1..4 : p <= n => \E x \in TourR : x.curve = cv /\ x.nkeys = n /\ x.rk[p] = c
+ASSUME KeyLemma
 
 \* ---- a small configuration menu for the command tours
 FewCfgs == {Cfg(32, 1, 0, FALSE, 0, 128, 0, TRUE, FALSE), Cfg(48, 4, 2, TRUE, 4, 256, 3, TRUE, FALSE),
@@ -49,7 +75,7 @@ TourC2 == {With(c, <<AC(t, 20), AC(u, 8)>>) : c \in TwoCfgs, t \in Types, u \in 
 TourD == {c \in FewCfgs : TRUE}                 \* no command at all
 \* large payloads: many blocks
 TourE == {With(c, <<AC(2, dl), AC(t, 36)>>) : c \in TwoCfgs, t \in {7, 9}, dl \in IF Full THEN {4096, 20000, 65536, 70001} ELSE {4096, 70001}}
-Tour == TourA \cup TourB \cup TourB2 \cup TourC1 \cup TourC2 \cup TourD \cup TourE
+Tour == TourA \cup TourR \cup TourB \cup TourB2 \cup TourC1 \cup TourC2 \cup TourD \cup TourE
 
 \* lemma of the tour (checked as an invariant): every 16-byte stream end x block 1..MaxBlocks is reached by tour B
 RECURSIVE SLen(_, _)
@@ -64,8 +90,12 @@ SimLens == {0, 1, 3, 4, 16, 33, 100, 208, 240, 255, 256, 257, 300, 511, 512, 700
 Grow == /\ ~done /\ Mode = "sim" /\ Len(case.cmds) < MaxCmds
         /\ \E t \in Types : \E dl \in SimLens : (t \in DataCmds \/ dl = 0) /\ case' = With(case, Append(case.cmds, AC(t, dl)))
         /\ UNCHANGED done
+\* simulation: the key classes of the root set and of the ISK are drawn before the first command
+Keys == /\ ~done /\ Mode = "sim" /\ Len(case.cmds) = 0 /\ case.rk = AllFull(case.nkeys) /\ case.ik = "full"
+        /\ \E v \in [1..case.nkeys -> KeyClasses] : \E c \in KeyClasses : case' = Keyed(case, v \o <<>>, c)
+        /\ UNCHANGED done
 Finish == /\ ~done /\ (Mode = "tour" \/ Len(case.cmds) >= 1)
           /\ done' = TRUE /\ PrintT(ToJson(case)) /\ UNCHANGED case
 GInit == done = FALSE /\ case \in (IF Mode = "tour" THEN Tour ELSE AllCfgs)
-GNext == Grow \/ Finish
+GNext == Keys \/ Grow \/ Finish
 =============================================================================
